@@ -229,7 +229,7 @@ class PMEval(Evaluator):
             args = [self.ev(a, env) for a in argexprs]
             if name == "k_eff" and not args:
                 return self.param("p_k_eff")
-            if name == "integration_constant" and len(args) == 2 and args[1] == P("p_L") and self.is_r(args[0]):
+            if name == "integration_constant" and len(args) == 2 and args[1] in (P("p_L"), getattr(self, "length_alias", None)) and self.is_r(args[0]):
                 self.used_params.add("p_apod")
                 return R(self.apod_fmt.format(z=args[0]))
             self.fail(f"spdc.pp.{name}(…) is not a modelled accessor", e)
